@@ -365,7 +365,21 @@ class SPattern:
         items, subj = self._subj(s)
         if items is None:
             return self.real.split(subj, maxsplit)
-        raise cur()._raise(Unsupported("regex split on symbolic subject"))
+        if self.groups:
+            raise cur()._raise(Unsupported("regex split with capture groups on symbolic subject"))
+        out = []
+        last = 0
+        k = 0
+        for m in self.finditer(s):
+            if m.en == m.st:
+                raise cur()._raise(Unsupported("regex split on empty match"))
+            out.append(s._norm(items[last:m.st]))
+            last = m.en
+            k += 1
+            if maxsplit and k >= maxsplit:
+                break
+        out.append(s._norm(items[last:]))
+        return out
 
 
 def _empty_like(s):
